@@ -160,8 +160,11 @@ class Tree:
 
             if reuse:
                 if "base" not in _FIXED:
+                    import atexit
+
                     _FIXED["base"] = tempfile.mkdtemp(prefix="vmon-c19-fixed-")
                     _FIXED["fs"] = NativeOSFS()
+                    atexit.register(shutil.rmtree, _FIXED["base"], ignore_errors=True)   # nothing is left behind
                 self.root = os.path.join(_FIXED["base"], "pack")
                 shutil.rmtree(self.root, ignore_errors=True)
                 self.fs = _FIXED["fs"]
